@@ -229,7 +229,7 @@ func alphabetFor(builtins []Step, skipTx bool, full bool, nusers int, doubleDept
 
 // ---------------------------------------------------------------- generators
 
-const rule = "case = (pipeline, SkipDefaultTransaction, history); the built-in registrations read from callbacks/callbacks.go are replayed as recording stubs, then the history (Register / Before(t).Register / After(t).Register / Before(a).After(b).Register / Replace / Remove over built-in names, user names u1..u4 used before or after their registration, an unknown name and '*') runs on the real processor and the pipeline is fired through db.Create/Find/Update/Delete/Row/Exec after every step. Streams: exhaustive = every in-domain history up to the tier's length over the small alphabet; main = random histories of length 1..8 kept outside the known-finding classes; known = histories inside a known-finding class (cyclic or *-unsatisfiable constraints, Replace of a * callback), judged like all others and reported as KNOWN-FINDING; edge = out-of-domain calls (duplicate names, Replace/Remove of names that are not live, constrained Replace, user Match guards): model = implementation only. distinct = distinct (pipeline, tx, history) ; non-trivial = in the domain, at least one Before/After request binds (live target or '*'), the last call returned nil and at least two callbacks fired."
+const rule = "case = (pipeline, SkipDefaultTransaction, history); the built-in registrations read from callbacks/callbacks.go are replayed as recording stubs, then the history (Register / Before(t).Register / After(t).Register / Before(a).After(b).Register and the same requests chained After(b).Before(a) / Match(f) first in the chain / Replace / Remove / registration of a removed name again, over built-in names, user names u1..u4 used before or after their registration, an unknown name and '*') runs on the real processor and the pipeline is fired through db.Create/Find/Update/Delete/Row/Exec after every step. Streams: exhaustive = every in-domain history up to the tier's length over the small alphabet; main = random histories of length 1..8 kept outside the known-finding classes; known = histories inside a known-finding class (cyclic or *-unsatisfiable constraints, Replace of a * callback), judged like all others and reported as KNOWN-FINDING; edge = out-of-domain calls (duplicate names, Replace/Remove of names that are not live, constrained Replace, user Match guards): model = implementation only. distinct = distinct (pipeline, tx, history) ; non-trivial = in the domain, at least one Before/After request binds (live target or '*'), the last call returned nil and at least two callbacks fired."
 
 func cloneSteps(h []Step) []Step { return append([]Step{}, h...) }
 
